@@ -24,6 +24,7 @@ os.environ.setdefault("PYTHONHASHSEED", "0")
 from harness import catalog, findings, pool, tlc  # noqa: E402
 from harness.show import brief  # noqa: E402
 
+ROUND_TRACES = 6000     # traces executed and validated per round
 ROUND_TASKS = 96        # generation / replay tasks executed and validated per round (bounds the memory of the thorough tier)
 GLOBAL_OWNER = {"wellformed": "C03", "poison": "C12", "frame": "C17", "options": "C14"}
 STD_KEYS = ("act", "prop", "args", "out", "res", "digests", "targets", "after", "opts", "ms", "kept", "note")
@@ -168,10 +169,21 @@ def check(pid: str, tier: str, seed: int, replay_path: str = None) -> int:
         verdict = {"failures": [], "events": 0, "traces": 0, "expected_events": 0, "skipped": 0, "batches": 0}
         by_id = {}
         stage["execution_s"] = stage["validation_s"] = 0.0
-        rounds = [traces] if replay_path else [None] * ((len(tasks) + ROUND_TASKS - 1) // ROUND_TASKS)
+        # a round holds at most ROUND_TASKS tasks and about ROUND_TRACES traces (tasks carry up to 200 traces each)
+        groups, cur, load = [], [], 0
+        for tk in tasks:
+            n = tk[4] if tk[0] == "driver" else len(tk[2])
+            if cur and (len(cur) >= ROUND_TASKS or load + n > ROUND_TRACES):
+                groups.append(cur)
+                cur, load = [], 0
+            cur.append(tk)
+            load += n
+        if cur:
+            groups.append(cur)
+        rounds = [traces] if replay_path else groups
         for rn, given in enumerate(rounds):
             t_stage = time.time()
-            chunk = given if given is not None else pool.run_tasks(tasks[rn * ROUND_TASKS:(rn + 1) * ROUND_TASKS])
+            chunk = given if replay_path else pool.run_tasks(given)
             stage["execution_s"] = round(stage["execution_s"] + time.time() - t_stage, 1)
             if not chunk:
                 continue
